@@ -19,7 +19,7 @@ RULE = ("cases = seeded programs with lint triggers injected at AST level and ho
         "distinct key = (set of fix descriptions offered, layout perturbation, outcome)")
 ASSUME = ["the original program's run is the reference (metamorphic oracle)",
           "fix descriptions are read through the verif-batch hook only for coverage keys and signatures"]
-BATCH = 4
+BATCH = 2
 FLOOR = {"quick": 8, "thorough": 15}
 BUDGET = {"quick": 45, "thorough": 840}
 E = G.E
